@@ -144,7 +144,7 @@ def _run(prop, tier, replay, seed, work, t0):
         # ---- role 1: design check (exhaustive, small scope) on the model as coded
         qcfgs, tcfgs, muts = DESIGN[prop]
         for cfg in (qcfgs if quick else tcfgs):
-            r = C.design_check(DESIGN_MODULE.get(cfg, "Loop"), cfg, work, workers=12 if quick else 14, timeout=600 if quick else 1500, xmx="10g")
+            r = C.design_check(DESIGN_MODULE.get(cfg, "Loop"), cfg, work, workers=12 if quick else 14, timeout=600 if quick else 3600, xmx="10g")
             design.append(r)
         if prop == "C05":
             # ---- unbounded argument for the idle discipline on a sequence-free abstraction (IdleAbs.tla): TLC checks the invariant, and in the
